@@ -566,6 +566,10 @@ class FiltersSet:
         for f in self.filters:
             if f["name"] != name:
                 continue
+            if self.__isdisabled(f["content"]):
+                # already disabled: do not wrap it twice
+                f["enabled"] = False
+                return False
             ifcontrol.addchild(f["content"])
             f["content"] = ifcontrol
             f["enabled"] = False
